@@ -39,6 +39,20 @@ def _width(t):
             'unsigned long': 64, 'uint64_t': 64, 'int64_t': 64, 'long long': 64, 'unsigned long long': 64, 'size_t': 64}.get(t)
 
 
+def _wraps(fn, side, ks, w):
+    """Does the file-supplied value occur in `side` under a +, * or << with a second non-constant operand, computed in a type
+    no wider than the value itself?"""
+    for x in walk(side):
+        if x['k'] == 'BinaryOperator' and x.get('op') in ('+', '*', '<<') and (_keys(fn, x) & ks):
+            a, b = kids(x)
+            if const(a) is not None or const(b) is not None:
+                continue
+            wx = _width(fn.type(x))
+            if wx is None or w is None or wx <= w:
+                return True
+    return False
+
+
 def file_loops(prog, floor=6):
     fns = [f for f in prog.fns.values() if f.file.startswith('fileio/read_') and f.blocks]
     if len(fns) < 8:
@@ -121,7 +135,10 @@ def file_loops(prog, floor=6):
                     if c2 is None or not (_keys(fn, c2) & ks):
                         continue
                     # an upper bound: a relational comparison that reads the value
-                    if not any(x['k'] == 'BinaryOperator' and x.get('op') in ('<', '>', '<=', '>=') and (_keys(fn, x) & ks)
+                    # (a side where the value is an operand of a sum/product computed in its own width does not bound it:
+                    #  `offset + size > file_length` holds for size = 2^64 - offset)
+                    if not any(x['k'] == 'BinaryOperator' and x.get('op') in ('<', '>', '<=', '>=') and
+                               any((_keys(fn, sd) & ks) and not _wraps(fn, sd, ks, w) for sd in kids(x))
                                for x in walk(c2)):
                         continue
                     if any(s_ is not None and s_ not in reach for s_ in fn.blocks[b]['s']):
